@@ -131,6 +131,11 @@ class Engine:
     self._forced = None
     self.falsify_first = False
     self.stop_path_on_violation = False
+    # second solver (cvc5 binary) on every k-th decided obligation
+    import os as _os
+    self.crosscheck_stride = int(_os.environ.get('VERIF_CROSSCHECK', '0'))
+    self._cc_n = 0
+    self.crosscheck = {'agree': 0, 'timeout_or_error': 0, 'disagree': 0}
     self._forced_sites = []
     self._sites = []
     self._guess = []
@@ -435,6 +440,11 @@ class Engine:
       r, m = self._check_oneshot(neg)
     else:
       r, m = self._check(neg)
+    if self.crosscheck_stride and r in ('sat', 'unsat'):
+      self._cc_n += 1
+      if self._cc_n % self.crosscheck_stride == 0:
+        facts = only_facts if only_facts is not None else self._pc
+        self._crosscheck(name, list(facts) + [neg], r)
     if r == 'unsat':
       self.stats.discharged += 1
       return True
@@ -509,6 +519,45 @@ class Engine:
         return {k: z3.simplify(z3.substitute(self.inputs[k], *sub))
                 for k in names}
     return None
+
+  def _crosscheck(self, name, assertions, z3_result):
+    """Decide the same query with the cvc5 binary; a definite disagreement
+    makes the run inconclusive."""
+    import subprocess
+    import tempfile
+    import os as _os
+    s = z3.Solver()
+    for a in assertions:
+      s.add(a)
+    txt = s.to_smt2()
+    if 'declare-datatypes' in txt:
+      self.crosscheck['timeout_or_error'] += 1
+      return
+    f = tempfile.NamedTemporaryFile('w', suffix='.smt2', delete=False)
+    f.write('(set-logic ALL)\n' + txt.replace('(set-info :status', ';'))
+    f.close()
+    try:
+      out = subprocess.run(
+          ['cvc5', '--tlimit=20000', '--strings-exp', f.name],
+          capture_output=True, text=True, timeout=40).stdout.strip().split('\n')[0]
+    except Exception:  # pylint: disable=broad-except
+      out = 'error'
+    finally:
+      _os.unlink(f.name)
+    if out in ('sat', 'unsat'):
+      if out == z3_result:
+        self.crosscheck['agree'] += 1
+      else:
+        self.crosscheck['disagree'] += 1
+        self.inconclusive.append(
+            f'solver disagreement on {name}: z3 {z3_result}, cvc5 {out}')
+    else:
+      self.crosscheck['timeout_or_error'] += 1
+    self.stats.reached['cvc5_' + ('agree' if out == z3_result else
+                                  'disagree' if out in ('sat', 'unsat')
+                                  else 'undecided')] = self.stats.reached.get(
+        'cvc5_' + ('agree' if out == z3_result else 'disagree' if out in (
+            'sat', 'unsat') else 'undecided'), 0) + 1
 
   def model_values(self, m):
     vals = {}
